@@ -14,7 +14,7 @@ TRUSTED_BASE = [
     'extraction: Extraction "model.ml" with ExtrOcamlBasic only (Extract Inductive bool/option/unit/list/prod/sumbool/sumor, Extract Inlined Constant andb/orb); OCaml 4.13.1; driver/main.ml (S-expression glue)',
     'correspondence check = differential testing of the hand-written Gallina model against the crate built from /repo (harness/, Debug-output parser), exhaustive only over the stated finite universes',
     'modelled rather than verified: winnow 0.6.26 combinator semantics, std Ord::max/min, Iterator::max/min, Vec/String ordering, u64::from_str, slice::sort; serde/serde_json, miette, thiserror, DefaultHasher are observed only',
-    'tools/translate.py: a translator for a small Rust subset (match tables with guards, or-patterns, struct patterns, constructor calls) that regenerates impl Ord for Bound, BoundSet::new and the five desugaring tables as Gallina on every run, and tools/translate_fn.py, which does the same for fifteen straight-line / early-return function bodies (Version eq/cmp/diff/is_prerelease, BoundSet satisfies/allows_all/allows_any/intersect/difference/constructors, Display for BoundSet, flip, predicate), and tools/translate_p.py, which re-expresses the 13 winnow grammar functions of src/range.rs over the combinator definitions of Model/Comb.v (the reading of the winnow combinators alt/opt/peek/separated/repeat_till/terminated/... used by this project; callees replaced by their models) and proves each equal to the character-level model; what it emits is proved equal to the model functions by the kernel, what it cannot parse is reported and then rests on the correspondence alone',
+    'tools/translate.py: a translator for a small Rust subset (match tables with guards, or-patterns, struct patterns, constructor calls) that regenerates impl Ord for Bound, BoundSet::new and the five desugaring tables as Gallina on every run, and tools/translate_fn.py, which does the same for fifteen straight-line / early-return function bodies (Version eq/cmp/diff/is_prerelease, BoundSet satisfies/allows_all/allows_any/intersect/difference/constructors, Display for BoundSet, flip, predicate), and tools/translate_p.py, which re-expresses the 13 winnow grammar functions of src/range.rs over the combinator definitions of Model/Comb.v (the reading of the winnow combinators alt/opt/peek/separated/repeat_till/terminated/... used by this project; callees replaced by their models) and proves each equal to the character-level model, and tools/translate_v.py, which does the same for the seven version-grammar functions of src/lib.rs over the error-carrying combinators of Model/CombE.v; what it emits is proved equal to the model functions by the kernel, what it cannot parse is reported and then rests on the correspondence alone',
     'tools/*.py (generation, diffing, known-finding classification)',
 ]
 
